@@ -198,6 +198,12 @@ def run(ctx):
         items.append(("binding", "d", "a.d + %s" % c, "double"))
         items.append(("binding", "b", "a.d < %s" % c, "bool"))
         items.append(("handler", "onFired", "{ a.d = %s; }" % c, None))
+    # several returns unified through a wildcard (null, [], an integer literal): accepted only if ALL of them have one common type
+    for (pn, t, r1, r2, r3) in [("next", "vobj", "oth", "null", "a"), ("next", "vobj", "a", "null", "oth"), ("next", "vobj", "sub", "null", "a"), ("next", "vobj", "a", "null", "b"),
+                                ("names", "strlist", "a.nums", "[]", "a.names"), ("names", "strlist", "a.names", "[]", "b.names"), ("nums", "intlist", "a.names", "[]", "a.nums"),
+                                ("u", "uint", "a.i", "1", "a.u"), ("s", "string", "a.i", "1", "a.s")]:
+        items.append(("binding", pn, "{ if (a.b) { return %s } if (b.b) { return %s } return %s }" % (r1, r2, r3), t))
+        items.append(("binding", pn, "{ switch (a.i) { case 0: return %s; case 1: return %s; } return %s }" % (r1, r2, r3), t))
     singles = []
     for kind, name, src, t in items:
         if kind == "binding":
